@@ -22,6 +22,7 @@ RULE = ("complete table: version strings {absent, 1, 2, 2.0, 2.1, 2.2, 2.3, 2.1.
         "type => time-based, ScenarioError at start iff version >= 4 / explicit mismatch / in-process v2 signatures "
         "claiming >= 3; differential: (time, inputs) sequence equal to the v3 stub's. non-trivial = version < 3 with "
         "a step executed, or a rejected start; distinct = distinct table rows")
+RULE += '; every in-process row also as the second of two instances sharing one meta dict'
 ASSUMPTIONS = [
     "numeric dotted version strings only; 'different' explicit versions differ numerically (not '2' vs '2.0')",
     "in-process stubs announcing < 3 accept step with two or three arguments",
